@@ -225,8 +225,9 @@ def loop_contract(p_before, first, size, stride, value):
     return mk
 
 
-def run_step_true(kind, dim=2, system=False):
+def run_step_true(kind, dim=2, system=False, cols=None):
     ex = executor()
+    ex.residual_cols = cols
     data = gen(kind, dim)
     mt, mx = nt0 + J * selt, n0 + J * selx
     # loop contracts (ordinal order of the fori_loops in the executed branch); the written value is whatever the code
@@ -251,11 +252,13 @@ def run_step_true(kind, dim=2, system=False):
     return ex, data, d2, pc, mt, mx
 
 
-def ob_step_true(kind, clause):
-    name = f"{'C17' if clause in C17_CLAUSES else 'C16'}/rar_step_true/ensures.{clause}[{kind}]"
+def ob_step_true(kind, clause, cols=None):
+    """cols: None = the equation returns a scalar per candidate; k = a residual vector with k components (squared
+    residual = sum of the squared components)"""
+    name = f"{'C17' if clause in C17_CLAUSES else 'C16'}/rar_step_true/ensures.{clause}[{kind}{'' if cols is None else ',residual_components=' + str(cols)}]"
     def run(seed):
         t0 = time.time()
-        ex, data, d2, pc, mt, mx = run_step_true(kind)
+        ex, data, d2, pc, mt, mx = run_step_true(kind, cols=cols)
         # a firing step has capacity for a full set (precondition established by _proceed_to_rar)
         cap = []
         if kind in ("ODE", "nonstatio"):
@@ -288,7 +291,7 @@ def ob_step_true(kind, clause):
                 goals.append(("space_untouched_beyond", z3.Implies(z3.And(k_ >= mx + selx, k_ < n),
                                                                    d2.fields["omega"].elem(k_, col) == data.fields["omega"].elem(k_, col))))
         elif clause == "adds_highest_residual_candidates":
-            goals, ax = selection_goals(ex, kind, data, d2, mt, mx)
+            goals, ax = selection_goals(ex, kind, data, d2, mt, mx, cols)
             return result(name, goals, pre, ex, t0, extra_axioms=ax)
         elif clause == "candidates_in_domain":
             goals = domain_goals(ex, kind, data, d2, mt, mx)
@@ -302,9 +305,13 @@ def ob_step_true(kind, clause):
     return FnObligation(name, run, [RAR + "_rar_step_init.rar_step_true"])
 
 
-def selection_goals(ex, kind, data, d2, mt, mx):
+def selection_goals(ex, kind, data, d2, mt, mx, cols=None):
     """the new slice holds, in order, the candidates ranked highest by squared residual"""
     goals, ax = [], []
+    def sq(rf, t):
+        if cols is None:
+            return rf(t) * rf(t)
+        return sum((rf(t, z3.IntVal(c_)) * rf(t, z3.IntVal(c_)) for c_ in range(cols)), z3.RealVal(0))
     samples = [u for u in getattr(ex, "uniforms", [])]
     res = getattr(ex, "residuals", [])
     if kind in ("ODE", "statio"):
@@ -314,7 +321,8 @@ def selection_goals(ex, kind, data, d2, mt, mx):
         rf = res[0][0]
         S, sel = (St, selt) if kind == "ODE" else (Sx, selx)
         t = z3.Int("t")
-        goals.append(("ranked_by_squared_residual", z3.Implies(z3.And(t >= 0, t < S), zreal(sorted_arr.elem(t)) == rf(t) * rf(t))))
+        goals.append(("ranked_by_squared_residual", z3.Implies(z3.And(t >= 0, t < S), zreal(sorted_arr.elem(t)) == sq(rf, t))))
+        ax += pyvc.norm_axioms(ex, [t])
         if kind == "ODE":
             lo, hi, uf = samples[0]
             goals.append(("new_slice_is_top_of_ranking", z3.Implies(q_ < sel, d2.fields["times"].elem(mt + q_) == uf(sig(S - sel + q_)))))
@@ -486,9 +494,66 @@ SCHED_LEMMAS = ["SCHED_established", "SCHED_preserved_while_capacity", "fires_ex
 
 # ------------------------------------------------------------------------------ native monitor (replay)
 
+def _native_rar_statio_vector():
+    """stationary refinement with a residual *vector* per candidate (two components of mostly opposite signs): the
+    candidates of each step are re-drawn with the generator's own key discipline and the activated slots are compared
+    with the candidates of largest squared residual (sum of the squared components)"""
+    import numpy as np, jax, warnings
+    import jax.numpy as jnp
+    import equinox as eqx
+    from jinns.solver._rar import init_rar, trigger_rar
+    from jinns.data._DataGenerators import CubicMeshPDEStatio
+    from jinns.loss import LossPDEStatio, PDEStatio
+    from jinns.parameters import Params
+    from jinns.utils._pinn import PINN
+
+    class Dyn(PDEStatio):
+        def equation(self, x, u, params):
+            f = jnp.sin(3.0 * x[0]) * (0.3 + x[1])
+            return jnp.array([f + x[1], -f + 0.4 * jnp.cos(2.0 * x[1])])
+
+    class M(eqx.Module):
+        w: jax.Array
+        def __call__(self, x):
+            return jnp.sum(self.w * x)[None]
+    u = PINN(mlp=M(jnp.ones(2)), slice_solution=jnp.s_[0:1], eq_type="statio_PDE", input_transform=lambda i, p: i, output_transform=lambda i, o, p: o)
+    params = Params(nn_params=u.params, eq_params={})
+    with warnings.catch_warnings():
+        warnings.simplefilter("ignore")
+        loss = LossPDEStatio(u=u, dynamic_loss=Dyn(), params=params)
+    S, sel, n0_ = 25, 6, 12
+    rp = {"start_iter": 0, "update_every": 1, "sample_size_omega": S, "selected_sample_size_omega": sel}
+    g = CubicMeshPDEStatio(key=jax.random.PRNGKey(5), n=60, nb=None, omega_batch_size=4, omega_border_batch_size=None, dim=2,
+                           min_pts=(-1.0, 0.5), max_pts=(2.0, 3.0), rar_parameters=rp, n_start=n0_)
+    g, ft, ff = init_rar(g)
+    for step in range(3):
+        m = n0_ + step * sel
+        _, *sub = jax.random.split(g.key, 3)
+        cand = np.asarray(g.sample_in_omega_domain(sub, S))
+        sq = np.asarray(jax.vmap(lambda x: jnp.sum(Dyn().evaluate(x, u, params) ** 2))(jnp.asarray(cand)))
+        _, _, g2 = trigger_rar(step, loss, params, g, ft, ff)
+        new = np.asarray(g2.omega)[m:m + sel]
+        rows = {tuple(np.round(r, 9)) for r in cand.tolist()}
+        if not all(tuple(np.round(r, 9)) in rows for r in new.tolist()):
+            return None          # the candidates could not be re-drawn: no statement
+        top = {tuple(np.round(r, 9)) for r in cand[np.argsort(-sq)[:sel]].tolist()}
+        if {tuple(np.round(r, 9)) for r in new.tolist()} != top:
+            got = sorted((float(sq[[tuple(np.round(c_, 9)) for c_ in cand.tolist()].index(tuple(np.round(r, 9)))]) for r in new.tolist()), reverse=True)
+            return [f"stationary step {step} with a 2-component residual: the activated slots hold candidates with squared residuals "
+                    f"{[round(v, 3) for v in got]}, the {sel} largest of the {S} candidates are {[round(float(v), 3) for v in np.sort(sq)[::-1][:sel]]}"]
+        g = g2
+    return None
+
+
 def native_rar_monitor(vals):
     try:
         m = _native_rar_ode(vals)
+        if m:
+            return m
+    except Exception:
+        pass
+    try:
+        m = _native_rar_statio_vector()
         if m:
             return m
     except Exception:
@@ -521,7 +586,8 @@ def _native_rar_nonstatio(vals):
             return jnp.sum(self.w * x)[None]
     u = PINN(mlp=M(jnp.ones(3)), slice_solution=jnp.s_[0:1], eq_type="nonstatio_PDE", input_transform=lambda i, p: i, output_transform=lambda i, o, p: o)
     msgs = []
-    for (st_, ev, n0_, nt0_, selt_, selx_, ntot, nttot, St_, Sx_) in [(1, 2, 4, 6, 2, 3, 13, 30, 5, 6), (0, 1, 5, 3, 3, 2, 30, 10, 4, 9), (2, 1, 3, 4, 2, 7, 40, 20, 3, 8)]:
+    for (st_, ev, n0_, nt0_, selt_, selx_, ntot, nttot, St_, Sx_) in [(1, 2, 4, 6, 2, 3, 13, 30, 5, 6), (0, 1, 5, 3, 3, 2, 30, 10, 4, 9), (2, 1, 3, 4, 2, 7, 40, 20, 3, 8),
+                                                                      (0, 1, 12, 3, 2, 3, 30, 20, 4, 5)]:
         rp = {"start_iter": st_, "update_every": ev, "sample_size_times": St_, "selected_sample_size_times": selt_,
               "sample_size_omega": Sx_, "selected_sample_size_omega": selx_}
         g = CubicMeshPDENonStatio(key=jax.random.PRNGKey(1), n=ntot, nb=None, nt=nttot, omega_batch_size=2, omega_border_batch_size=None,
@@ -731,9 +797,19 @@ def c17_obligations(tier):
     for kind in ("ODE", "statio", "nonstatio"):
         for cl in C17_CLAUSES:
             obs.append(ob_step_true(kind, cl))
+        if kind != "nonstatio":
+            # residual vectors (what jinns' equations return: shape (k,) per point): ranking by the sum of squared components
+            for cols in (1, 2):
+                obs.append(ob_step_true(kind, "adds_highest_residual_candidates", cols=cols))
+            obs.append(ob_step_true(kind, "active_points_kept", cols=2))
     obs.append(ob_reshuffle_keeps_active_set())
     for kind in ("ODE", "statio", "nonstatio"):
         obs.append(ob_step_true_system(kind))
+        # the step clauses above assume room for a full selected set in every store the step writes: that precondition is
+        # what _proceed_to_rar / trigger_rar establish (their C16 contracts, needed here and therefore re-checked here)
+        for o in (ob_proceed(kind), ob_trigger(kind)):
+            o.name = o.name.replace("C16/", "C17/requires.capacity_for_a_full_set/")
+            obs.append(o)
     # the reshuffle of a RAR store is drawn with the store's probability vector (C09 step contract, restated)
     from contracts import c09
     for which in ("DataGeneratorODE.temporal_batch", "CubicMeshPDENonStatio.temporal_batch", "CubicMeshPDEStatio.inside_batch[dim=1]"):
